@@ -32,7 +32,7 @@ var baselineNamesJSON []byte
 type funcFP struct {
 	Sig     string      `json:"sig"`
 	Callees []string    `json:"callees"`
-	Refs    []string    `json:"refs"` // package-level objects, fields and methods the body mentions
+	Refs    []string    `json:"refs"`   // package-level objects, fields and methods the body mentions
 	Locals  [][2]string `json:"locals"` // params, results, body definitions in source order: name, type
 	Stmts   int         `json:"stmts"`
 }
